@@ -35,6 +35,12 @@ For the equality projections of State and Gate (object level and variable level)
     gen_{state,gate}_var_writes (dim : Z) : list write    the assignments of the on_para_eq_constraint=False branch (on a copy of var);
     gen_{state,gate}_var_true_is_arg : bool               the on_para_eq_constraint=True branch returns the argument itself, without any write.
 
+For the equality projections of Povm and MProcess (object level and variable level), whose content is whole-array arithmetic inside a fixed loop skeleton:
+    gen_povm_{obj,var}_size, _c_zeros (dim) : Z ; _axis : Z ; _c_first (F) (sd m : F) : F ; _abar (F) (s m : F) : F ; _newvec (F) (vec a_bar c : F) : F
+    gen_mp_{obj,var}_zeros (dim), _acc_row, _dec_idx, _dec_val, _upd_row : Z ; _upd (F) (vec m : F) : F
+  together with the requirement (enforced by the translator) that MProcess works on copy.deepcopy of self.hss / of convert_var_to_hss(c_sys, var, ...),
+  that Povm only READS self.vecs / convert_var_to_vecs(...) (no subscript / augmented assignment to them), and that the result is assembled from the new arrays.
+
 Accepted shapes (anything else raises Unsupported: the tie is reported broken, never silently skipped):
   factory:  def f(self, on_para_eq_constraint: bool = None, <more parameters with constant defaults>) -> ...:
       optional docstring;
@@ -550,6 +556,120 @@ def tr_eqproj_var(fdef):
     return ws, true_is_arg
 
 
+def tr_field(e, leaves):
+    """elementwise arithmetic over named arrays / scalars -> Gallina term over F (leaves: python source text -> Gallina variable)"""
+    key = ast.unparse(e)
+    if key in leaves:
+        return leaves[key]
+    if isinstance(e, ast.BinOp):
+        op = {ast.Add: "cadd F", ast.Sub: "csub F", ast.Mult: "cmul F", ast.Div: "kdiv F"}.get(type(e.op))
+        if op is None:
+            fail(e, "field operator")
+        return "(%s %s %s)" % (op, tr_field(e.left, leaves), tr_field(e.right, leaves))
+    fail(e, "unsupported arithmetic expression %s" % key)
+
+
+def strip_dtype(call):
+    return [kw for kw in call.keywords if kw.arg != "dtype"]
+
+
+def tr_povm_eq(stmts, vecs_src, tag, lines):
+    """size = <int>; m = len(V); c = np.hstack([np.array([<first>]), np.zeros(<n>)]); a_bar = np.sum(np.array(V), axis=<k>) / m;
+       new_vecs = []; for vec in V: new_vec = <expr over vec, a_bar, c>; new_vecs.append(new_vec)"""
+    if len(stmts) < 6:
+        fail(stmts[0], "povm equality projection: too few statements")
+    st = stmts
+    if not (is_assign(st[0], "size") and is_assign(st[1], "m") and ast.unparse(st[1].value) == "len(%s)" % vecs_src and is_assign(st[2], "c")
+            and is_assign(st[3], "a_bar") and is_assign(st[4]) and ast.unparse(st[4].value) == "[]" and isinstance(st[5], ast.For)):
+        fail(st[0], "povm equality projection: unexpected statement skeleton")
+    lines.append("Definition gen_povm_%s_size (dim : Z) : Z := %s." % (tag, tr_int_env(st[0].value, DIM_ENV)))
+    c = st[2].value
+    if not (call_of(c, "np.hstack") and len(c.args) == 1 and isinstance(c.args[0], ast.List) and len(c.args[0].elts) == 2):
+        fail(c, "expected c = np.hstack([np.array([x]), np.zeros(n)])")
+    a, z = c.args[0].elts
+    if not (call_of(a, "np.array") and len(a.args) == 1 and isinstance(a.args[0], ast.List) and len(a.args[0].elts) == 1 and not strip_dtype(a)
+            and call_of(z, "np.zeros") and len(z.args) == 1 and not strip_dtype(z)):
+        fail(c, "expected np.array([x]) and np.zeros(n)")
+    sds = {"np.sqrt(%s)" % k: "sd" for k in DIM_ENV}; sds["m"] = "m"
+    lines.append("Definition gen_povm_%s_c_first (F : OF) (sd m : F) : F := %s." % (tag, tr_field(a.args[0].elts[0], sds)))
+    lines.append("Definition gen_povm_%s_c_zeros (dim : Z) : Z := %s." % (tag, tr_int_env(z.args[0], {"size": "(gen_povm_%s_size dim)" % tag, **DIM_ENV})))
+    ab = st[3].value
+    sm = ab.left if isinstance(ab, ast.BinOp) else None
+    if not (sm is not None and call_of(sm, "np.sum") and len(sm.args) == 1 and ast.unparse(sm.args[0]) in ("np.array(%s)" % vecs_src, vecs_src)
+            and len(sm.keywords) == 1 and sm.keywords[0].arg == "axis"):
+        fail(st[3], "expected a_bar = np.sum(np.array(vecs), axis=k) <op> m")
+    lines.append("Definition gen_povm_%s_axis : Z := %s." % (tag, tr_int_env(sm.keywords[0].value, {})))
+    lines.append("Definition gen_povm_%s_abar (F : OF) (s m : F) : F := %s." % (tag, tr_field(ab, {ast.unparse(sm): "s", "m": "m"})))
+    lp = st[5]
+    lst = st[4].targets[0].id
+    if not (isinstance(lp.target, ast.Name) and ast.unparse(lp.iter) == vecs_src and len(lp.body) == 2 and is_assign(lp.body[0])
+            and ast.unparse(lp.body[1]) == "%s.append(%s)" % (lst, lp.body[0].targets[0].id) and not lp.orelse):
+        fail(lp, "expected for vec in vecs: new_vec = <expr>; new_vecs.append(new_vec)")
+    lines.append("Definition gen_povm_%s_newvec (F : OF) (vec a_bar c : F) : F := %s." % (tag, tr_field(lp.body[0].value, {lp.target.id: "vec", "a_bar": "a_bar", "c": "c"})))
+    rest = st[6:]
+    for n in [n for s_ in st for n in ast.walk(s_)]:
+        if isinstance(n, (ast.AugAssign,)) or (isinstance(n, ast.Assign) and any(isinstance(t, ast.Subscript) for t in n.targets)):
+            fail(n, "povm equality projection must not update arrays in place")
+    if not any(isinstance(n, ast.Name) and n.id == lst for s_ in rest for n in ast.walk(s_)):
+        fail(st[5], "the new vecs must be used to build the result")
+
+
+def tr_mp_eq(stmts, tag, lines):
+    """vec = np.zeros(<n>); for hs in hss: vec += hs[<r>]; vec[<i>] -= <c>; new = []; for hs in hss: hs[<r2>] -= <expr over vec, len(hss)>; new.append(hs)"""
+    st = stmts
+    if not (len(st) >= 5 and is_assign(st[0], "vec") and call_of(st[0].value, "np.zeros") and len(st[0].value.args) == 1 and isinstance(st[1], ast.For)
+            and isinstance(st[2], ast.AugAssign) and is_assign(st[3]) and ast.unparse(st[3].value) == "[]" and isinstance(st[4], ast.For)):
+        fail(st[0], "mprocess equality projection: unexpected statement skeleton")
+    lines.append("Definition gen_mp_%s_zeros (dim : Z) : Z := %s." % (tag, tr_int_env(st[0].value.args[0], {"dim": "dim", **DIM_ENV})))
+    l1 = st[1]
+    b = l1.body[0] if len(l1.body) == 1 else None
+    if not (ast.unparse(l1.iter) == "hss" and isinstance(l1.target, ast.Name) and isinstance(b, ast.AugAssign) and isinstance(b.op, ast.Add) and ast.unparse(b.target) == "vec"
+            and isinstance(b.value, ast.Subscript) and ast.unparse(b.value.value) == l1.target.id and not isinstance(b.value.slice, (ast.Slice, ast.Tuple))):
+        fail(l1, "expected for hs in hss: vec += hs[r]")
+    lines.append("Definition gen_mp_%s_acc_row : Z := %s." % (tag, tr_int_env(b.value.slice, {})))
+    d = st[2]
+    if not (isinstance(d.op, ast.Sub) and isinstance(d.target, ast.Subscript) and ast.unparse(d.target.value) == "vec" and not isinstance(d.target.slice, (ast.Slice, ast.Tuple))):
+        fail(d, "expected vec[i] -= c")
+    lines.append("Definition gen_mp_%s_dec_idx : Z := %s." % (tag, tr_int_env(d.target.slice, {})))
+    lines.append("Definition gen_mp_%s_dec_val : Z := %s." % (tag, tr_int_env(d.value, {})))
+    l2 = st[4]; lst = st[3].targets[0].id
+    if not (ast.unparse(l2.iter) == "hss" and isinstance(l2.target, ast.Name) and len(l2.body) == 2 and isinstance(l2.body[0], ast.AugAssign) and isinstance(l2.body[0].op, ast.Sub)
+            and isinstance(l2.body[0].target, ast.Subscript) and ast.unparse(l2.body[0].target.value) == l2.target.id and not isinstance(l2.body[0].target.slice, (ast.Slice, ast.Tuple))
+            and ast.unparse(l2.body[1]) == "%s.append(%s)" % (lst, l2.target.id)):
+        fail(l2, "expected for hs in hss: hs[r] -= <expr>; new_hss.append(hs)")
+    lines.append("Definition gen_mp_%s_upd_row : Z := %s." % (tag, tr_int_env(l2.body[0].target.slice, {})))
+    lines.append("Definition gen_mp_%s_upd (F : OF) (vec m : F) : F := %s." % (tag, tr_field(l2.body[0].value, {"vec": "vec", "len(hss)": "m"})))
+    if not any(isinstance(n, ast.Name) and n.id == lst for s_ in st[5:] for n in ast.walk(s_)):
+        fail(l2, "the updated hss must be used to build the result")
+
+
+def tr_povm_mp_eq(repo, lines):
+    t = ast.parse(open(os.path.join(repo, "quara/objects/povm.py")).read())
+    b = body_wo_doc(find_method(t, "Povm", "calc_proj_eq_constraint"))
+    if not (isinstance(b[0], ast.If) and isinstance(b[0].body[0], ast.Raise) and not b[0].orelse):
+        fail(b[0], "Povm.calc_proj_eq_constraint must start with the basis guard")
+    b = [x for x in b[1:]]
+    b[0:2] = [b[0], b[1]]
+    tr_povm_eq(b, "self.vecs", "obj", lines)
+    b = body_wo_doc(find_method(t, "Povm", "calc_proj_eq_constraint_with_var"))
+    if not (is_assign(b[0], "vecs") and call_of(b[0].value, "convert_var_to_vecs")):
+        fail(b[0], "expected vecs = convert_var_to_vecs(c_sys, var, on_para_eq_constraint)")
+    tr_povm_eq(b[1:], "vecs", "var", lines)
+    t = ast.parse(open(os.path.join(repo, "quara/objects/mprocess.py")).read())
+    for meth, src, tag in (("calc_proj_eq_constraint", "self.hss", "obj"), ("calc_proj_eq_constraint_with_var", None, "var")):
+        b = body_wo_doc(find_method(t, "MProcess", meth))
+        if not (is_assign(b[0], "dim") and is_assign(b[1], "hss")):
+            fail(b[0], "expected dim = ...; hss = <copy>")
+        v = b[1].value
+        if src is not None:
+            ok = is_copy_of(v, src) and ast.unparse(v).startswith("copy.deepcopy(")
+        else:
+            ok = call_of(v, "copy.deepcopy") and len(v.args) == 1 and call_of(v.args[0], "convert_var_to_hss")
+        if not ok:
+            fail(b[1], "MProcess equality projection must work on a DEEP COPY of its hss")
+        tr_mp_eq(b[2:], tag, lines)
+
+
 STATICS = [("state.py", "State"), ("povm.py", "Povm"), ("gate.py", "Gate"), ("mprocess.py", "MProcess")]
 
 
@@ -577,7 +697,7 @@ def main():
     try:
         tree = ast.parse(open(os.path.join(repo, "quara/objects/qoperation.py")).read())
         lines = ["(* REGENERATED by gen/c04_py2coq.py from quara/objects/qoperation.py and quara/objects/mprocess.py - do not edit *)",
-                 "From Coq Require Import String List Bool ZArith.", "From QV.Model Require Import C04_PySem.", "Import ListNotations.",
+                 "From Coq Require Import String List Bool ZArith.", "From QV.Core Require Import OF.", "From QV.Model Require Import C04_PySem.", "Import ListNotations.",
                  "Open Scope string_scope.", ""]
         for f in FACTORIES:
             flags, forwards, callees = tr_factory(find_method(tree, "QOperation", f))
@@ -614,6 +734,7 @@ def main():
             ws, tia = tr_eqproj_var(find_method(t, cls, "calc_proj_eq_constraint_with_var"))
             lines.append("Definition gen_%s_var_writes (dim : Z) : list write := [%s]." % (tag, "; ".join(ws)))
             lines.append("Definition gen_%s_var_true_is_arg : bool := %s." % (tag, "true" if tia else "false"))
+        tr_povm_mp_eq(repo, lines)
         open(out, "w").write("\n".join(lines) + "\n")
     except Unsupported as e:
         sys.stderr.write("UNSUPPORTED: %s\n" % e)
